@@ -43,7 +43,7 @@ def model_files_recursive(cur):
     return sorted(p for p in cur if p.startswith("/w/pkg/") and p.endswith((".yml", ".yaml")) and not p.endswith("/_package.yml"))
 
 
-def make_case(seed, i):
+def make_case(seed, i, force_end=None):
     rng = M.derive(seed, "c20", i)
     cfg = M.GenConfig.swarm(rng.fork("cfg"))
     cfg.n_records = (1, 4)
@@ -269,8 +269,28 @@ def make_case(seed, i):
                 cur.pop(ed["path"], None)
             else:
                 cur[ed["path"]] = ed["data"]
-    end_invalid = rng.chance(0.12)
-    if end_invalid:
+    end_invalid = rng.chance(0.16) or force_end is not None
+    unfinished = None
+    if end_invalid and (force_end == "unfinished_file" or (force_end is None and rng.fork("endkind").chance(0.5))):
+        # a new model file that is not finished yet (a YAML syntax error) appears in a directory the package reads - its own,
+        # an import's, a previous version's - and stays, while the user goes on saving other files: from that save on the
+        # package is invalid whatever else is on disk, and no regeneration that starts later may touch the output
+        er = rng.fork("unfinished")
+        live = sorted(p for p in M.render_tree(state, "/w") if p in cur and p.endswith((".yml", ".yaml")) and not p.endswith("/_package.yml"))
+        if live:
+            d = er.choice(["/w/pkg"] + sorted({p.rsplit("/", 1)[0] for p in live}))
+            unfinished = d + "/zz_unfinished.yml"
+            cur[unfinished] = "ZqUnfinished: !record\n  fields:\n    first: int\n   second: [\n"
+            edits.append({"kind": "write", "path": unfinished, "data": cur[unfinished], "steps": 1})
+            log.append("unfinished file %s appears and stays" % unfinished)
+            for j in range(er.randint(1, 3)):
+                if er.chance(0.6):
+                    edits.append({"kind": "pause"})
+                q = er.choice(live)
+                cur[q] = cur[q] + "\nZqLate%d: !record\n  fields:\n    v: int\n" % j
+                edits.append({"kind": "write" if er.chance(0.5) else "atomic", "path": q, "data": cur[q], "steps": er.randint(1, 2)})
+                log.append("later save of " + q)
+    if end_invalid and unfinished is None:
         mfs = model_files_recursive(cur)
         p = rng.choice(mfs)
         edits.append({"kind": "write", "path": p, "data": cur[p] + "\nOops: !record\n  fields: [\n", "steps": 1})
@@ -298,7 +318,7 @@ def make_case(seed, i):
     doc = {"files": files0, "cwd": "/w/pkg", "edits": edits, "sched": sched, "faults": faults,
            "mapseed": rng.next() % (1 << 31) + 1, "seed": seed,
            "case": {"i": i, "targets": targets, "imports": len(pkg.imports), "versions": len(pkg.versions), "edit_log": log,
-                    "n_edit_ops": len(edits), "ends_invalid": end_invalid, "model_file_in_subdirectory": subdir_file}}
+                    "n_edit_ops": len(edits), "ends_invalid": end_invalid, "unfinished_file": unfinished, "model_file_in_subdirectory": subdir_file}}
     return doc
 
 
@@ -352,6 +372,17 @@ def execute(sim, doc):
         return {"class": "watcher_died", "how": "exit code %s / command returned" % res["exit_code"], "detail": res["stderr"][-300:]}, st
     if not res["alive"]:
         return {"class": "watcher_died", "how": "event loop no longer receives events"}, st
+    # O3: from the save of a file that makes the package invalid for good, no regeneration that starts later touches the disk
+    unf = doc["case"].get("unfinished_file")
+    if unf:
+        since = next((o["seq"] for o in res["ops"] if o["op"] == "edit" and o["path"].endswith(" " + unf)), None)
+        if since is not None:
+            st["regenerations_started_while_invalid_for_good"] = 0
+            born = {o["g"]: o["seq"] for o in res["ops"] if o["op"] == "born"}
+            st["regenerations_started_while_invalid_for_good"] = sum(1 for g, b in born.items() if b > since)
+            for o in res["ops"]:
+                if o.get("mut") and o["g"] != "editor" and born.get(o["g"], 0) > since:
+                    return {"class": "output_written_while_package_invalid", "first": "%s %s" % (o["op"], o["path"].split(" -> ")[-1].replace("/w/", ""))}, st
     # O1: one-shot on the final disk, fresh process, must change nothing
     tree = res["tree"]
     links = {p: e["t"] for p, e in tree.items() if e["k"] == "l"}
@@ -472,7 +503,7 @@ def main():
     quick = args.tier == "quick"
     budget = check.budget(90, 1800)
     max_cases = 640 if quick else 10**7
-    tot = {"runs": 0, "cases": 0, "final_invalid": 0, "steps": 0, "sim_ms": 0.0, "faults_fired": 0}
+    tot = {"runs": 0, "cases": 0, "final_invalid": 0, "steps": 0, "sim_ms": 0.0, "faults_fired": 0, "cases_with_unfinished_file": 0, "regenerations_started_while_invalid_for_good": 0}
     probes = {}
     sigs = set()
     i = 0
@@ -483,6 +514,8 @@ def main():
             tot["runs"] += st["runs"]
             tot["cases"] += 1
             tot["final_invalid"] += 1 if st.get("final_invalid") else 0
+            tot["cases_with_unfinished_file"] += 1 if "regenerations_started_while_invalid_for_good" in st else 0
+            tot["regenerations_started_while_invalid_for_good"] += st.get("regenerations_started_while_invalid_for_good", 0)
             tot["steps"] += st.get("steps", 0)
             tot["sim_ms"] += st.get("sim_ms", 0)
             tot["faults_fired"] += st.get("faults_fired", 0)
@@ -512,6 +545,8 @@ def main():
         "simulated_runs": tot["runs"], "runs_per_hour": int(tot["runs"] / max(wall, 1e-9) * 3600), "watch_cases": tot["cases"],
         "scheduler_steps": tot["steps"], "simulated_time_s": round(tot["sim_ms"] / 1000.0, 1),
         "distinct_interleaving_signatures": len(sigs), "cases_ending_invalid(liveness only)": tot["final_invalid"],
+        "cases_with_a_file_that_makes_the_package_invalid_for_good": tot["cases_with_unfinished_file"],
+        "regenerations_started_while_invalid_for_good(must write nothing)": tot["regenerations_started_while_invalid_for_good"],
         "reach_probes": probes,
         "fault_kinds": {"transient_EIO_or_ENOSPC_fired": tot["faults_fired"], "event_duplicated": probes.get("event_duplicated", 0),
                         "event_coalesced": probes.get("event_coalesced", 0), "overflow_error_delivered": probes.get("overflow_error_delivered", 0),
@@ -525,4 +560,5 @@ def main():
     check.finish()
 
 
-main_guard(main)
+if __name__ == "__main__":
+    main_guard(main)
